@@ -20,9 +20,15 @@ CODES = {
     3: ("model", "the resolute outcome differs (as a set) from the Gallina model of the scheme that ran"),
     4: ("model", "the irresolute outcomes differ (as a set of sets) from the Gallina model"),
     5: ("model", "malformed observation"),
+    6: ("oracle", "a repeated identical call on the same (unchanged) objects returned a different outcome"),
     core.RAISED: ("oracle", "the call raised / the interpreter died outside the solver"),
 }
-RULE = ("elections with 0..6 voters and 1..7 projects (<=6 when irresolute); all four ballot types x every shipped "
+RULE = ("two streams.  (a) single calls; (b) HISTORIES (a third of the cases): a first call with a satisfaction-profile "
+        "object, then voters are added in place to that object and to the profile (append / extend_from_(multi)profile / "
+        "+= / profile.extend; equal ballots raise multiplicities in a multiprofile) or the object is re-used with another "
+        "tie-breaking rule / initial allocation / resoluteness, then the observed call with the same objects (and a "
+        "repeated identical call, which must return the identical outcome); the model is fed the FINAL election rebuilt "
+        "from scratch.  Elections with 0..6 voters and 1..7 projects (<=6 when irresolute); all four ballot types x every shipped "
         "satisfaction measure accepted by the ballot type x Profile/MultiProfile x every shipped tie-breaking rule "
         "accepted x is_sat_additive in {default, forced True, forced False} x resolute/irresolute x feasible initial "
         "allocations; costs from tie-rich pools (zeros, equal costs, halves/thirds), budgets on boundaries; "
@@ -59,6 +65,10 @@ NON_ADDITIVE = {"CC_Sat", "Cost_Sqrt_Sat", "Cost_Log_Sat"}
 LIB_ADDITIVE = {"Cost_Sat", "Cardinality_Sat", "Effort_Sat", "Relative_Cardinality_Sat",
                 "Relative_Cost_Approx_Normaliser_Sat", "Additive_Cost_Sqrt_Sat", "Additive_Cost_Log_Sat",
                 "Relative_Cost_Sat", "Additive_Cardinal_Sat", "Additive_Cardinal_Relative_Sat"}
+
+# measures whose per-voter value depends on the OTHER voters (read through the profile object): their per-ballot score
+# caches are defined only for a fixed electorate, so they are kept out of the in-place-mutation histories
+HISTORY_EXCLUDED = {"Effort_Sat"}
 
 POOLS = [
     [0, 1, 1, 2, 2, 3],
@@ -147,9 +157,32 @@ def gen(rng, i, tier):
                 init.append(j)
                 c += costs[j]
     via = "profile" if (solver or rng.random() < 0.25) else "class"
-    return {"kind": kind, "costs": [pb.qs(c) for c in costs], "budget": pb.qs(b), "ballots": ballots,
+    case = {"kind": kind, "costs": [pb.qs(c) for c in costs], "budget": pb.qs(b), "ballots": ballots,
             "multi": rng.random() < 0.45, "sat": sat, "tb": tb, "additive": additive, "resolute": resolute,
             "init": init, "via": via, "solver": solver}
+    # HISTORY stream (about a third of the cases): the observed call is the LAST of a sequence of calls that share
+    # one satisfaction-profile object (and one profile object) which is mutated in place in between -- voters are
+    # added / multiplicities raised -- or re-used with another tie-breaking rule / initial allocation.  The case
+    # carries the FINAL election; the observed outcome must be the greedy run of the final election.
+    if i % 3 == 2 and not solver and sat not in HISTORY_EXCLUDED:
+        if rng.random() < 0.6:                      # favour the general scheme: that is where totals of sets are used
+            case["additive"] = additive = False if sat not in NON_ADDITIVE else rng.choice([None, False])
+        if len(ballots) < 2:
+            ballots = case["ballots"] = ballots + _gen_ballots(rng, kind, n, rng.choice([1, 2, 3]))
+        nvf = len(ballots)
+        k = rng.randrange(0, nvf) if rng.random() < 0.8 else nvf           # ballots[:k] present at the first call
+        init1 = []
+        if rng.random() < 0.3:
+            j = rng.randrange(n)
+            if costs[j] <= b:
+                init1 = [j]
+        case["via"] = "profile"
+        case["hist"] = {"k": k, "mode": rng.choice(["append", "extend", "iadd", "profile_extend"]),
+                        "tb1": rng.choice(tbs) if rng.random() < 0.4 else tb,
+                        "init1": init1 if rng.random() < 0.4 else init,
+                        "resolute1": resolute if rng.random() < 0.8 else (not resolute),
+                        "repeat": rng.random() < 0.5}
+    return case
 
 
 def eff_additive(case):
@@ -185,47 +218,109 @@ def impl(case):
             faulthandler.cancel_dump_traceback_later()
 
 
-def _impl(case):
-    from pabutools.election import satisfaction as S
+def _call(inst, prof, projs, case, cls, satp, tb, init, resolute):
     from pabutools.rules import greedy_utilitarian_welfare
 
-    if case.get("solver"):
-        pb.install_solver_guard()
-        pb.solver_reset()
-    n = len(case["costs"])
-    inst, projs = pb.make_instance(case["costs"], case["budget"])
-    prof = pb.make_profile(case["kind"], inst, projs, case["ballots"], case["multi"])
-    cls = getattr(S, case["sat"])
-    satp = prof.as_sat_profile(cls)
-    tab = [core.qj(satp.total_satisfaction([projs[j] for j in range(n) if (m >> j) & 1])) for m in range(2 ** n)]
-    sp = [core.qj(satp.total_satisfaction_project(p)) for p in projs]
-    tie = _tie(case["tb"])
-    keys = []
-    for p in projs:
-        k = tie.func(inst, prof, p)
-        keys.append(core.qj(pb.rank(p)) if isinstance(k, str) else core.qj(k))
-    kw = {"tie_breaking": tie, "resoluteness": case["resolute"],
-          "initial_budget_allocation": [projs[j] for j in case["init"]]}
+    kw = {"tie_breaking": _tie(tb), "resoluteness": resolute,
+          "initial_budget_allocation": [projs[j] for j in init]}
     if case["via"] == "profile":
         kw["sat_profile"] = satp
         kw["is_sat_additive"] = eff_additive(case)
     else:
         kw["sat_class"] = cls
         kw["is_sat_additive"] = case["additive"]
-    if case["tb"] == "lexico" and case.get("default_tb"):
-        del kw["tie_breaking"]
     res = greedy_utilitarian_welfare(inst, prof, **kw)
-    out = {"tab": tab, "sp": sp, "keys": keys,
-           "mult": sorted(int(satp.multiplicity(s)) for s in satp)}
-    if case["resolute"]:
-        out["out"] = [pb.ranks(res)]
+    return [pb.ranks(res)] if resolute else [pb.ranks(r) for r in res]
+
+
+def _grow(case, inst, projs, prof, satp, cls, new_ballots, mode):
+    """add the voters [new_ballots] IN PLACE to the profile object and to the satisfaction-profile object"""
+    if not new_ballots:
+        return
+    multi = case["multi"]
+    fresh = pb.make_profile(case["kind"], inst, projs, new_ballots, False)     # the new ballot objects
+    items = [b.frozen() if multi else b for b in fresh]
+    if mode == "profile_extend":
+        prof.extend(items)
     else:
-        out["out"] = [pb.ranks(r) for r in res]
+        for b in items:
+            prof.append(b)
+    if mode == "append":
+        for b in items:
+            satp.append(cls(inst, prof, b))
+    elif mode == "iadd":
+        from pabutools.election.satisfaction import SatisfactionProfile, SatisfactionMultiProfile
+
+        if multi:
+            other = SatisfactionMultiProfile(instance=inst)
+            for b in items:
+                other.append(cls(inst, prof, b))
+        else:
+            other = SatisfactionProfile([cls(inst, prof, b) for b in items], instance=inst)
+        before = satp
+        satp += other
+        assert satp is before
+    else:  # extend / profile_extend
+        if multi:
+            satp.extend_from_multiprofile(fresh.as_multiprofile(), cls)
+        else:
+            satp.extend_from_profile(fresh, cls)
+
+
+def _impl(case):
+    from pabutools.election import satisfaction as S
+
+    if case.get("solver"):
+        pb.install_solver_guard()
+        pb.solver_reset()
+    n = len(case["costs"])
+    cls = getattr(S, case["sat"])
+    hist = case.get("hist")
+    inst, projs = pb.make_instance(case["costs"], case["budget"])
+    out = {}
+    if hist:
+        k = hist["k"]
+        prof = pb.make_profile(case["kind"], inst, projs, case["ballots"][:k], case["multi"])
+        satp = prof.as_sat_profile(cls)
+        out["first"] = _call(inst, prof, projs, case, cls, satp, hist["tb1"], hist["init1"], hist["resolute1"])
+        _grow(case, inst, projs, prof, satp, cls, case["ballots"][k:], hist["mode"])
+    else:
+        prof = pb.make_profile(case["kind"], inst, projs, case["ballots"], case["multi"])
+        satp = prof.as_sat_profile(cls)
+    out["out"] = _call(inst, prof, projs, case, cls, satp, case["tb"], case["init"], case["resolute"])
+    if hist and hist.get("repeat"):
+        out["again"] = _call(inst, prof, projs, case, cls, satp, case["tb"], case["init"], case["resolute"])
+    # what the model is fed: the FINAL election, rebuilt from scratch (fresh profile, fresh satisfaction profile)
+    inst2, projs2 = pb.make_instance(case["costs"], case["budget"])
+    ref_prof = pb.make_profile(case["kind"], inst2, projs2, case["ballots"], case["multi"])
+    ref = ref_prof.as_sat_profile(cls)
+    out["tab"] = [core.qj(ref.total_satisfaction([projs2[j] for j in range(n) if (m >> j) & 1])) for m in range(2 ** n)]
+    out["sp"] = [core.qj(ref.total_satisfaction_project(p)) for p in projs2]
+    tie = _tie(case["tb"])
+    keys = []
+    for p in projs2:
+        kk = tie.func(inst2, ref_prof, p)
+        keys.append(core.qj(pb.rank(p)) if isinstance(kk, str) else core.qj(kk))
+    out["keys"] = keys
+    out["mult"] = sorted(int(ref.multiplicity(s_)) for s_ in ref)
     if case.get("solver"):
         st = pb.solver_state()
         if st["faults"]:
             out["solver_fault"] = st["last_fault"]
     return out
+
+
+REPEAT_DIFFERS = 6
+
+
+def post(cases, obs):
+    """python-side oracle: a repeated identical call on the same objects must return the identical outcome"""
+    cases, obs = core.default_post(cases, obs)
+    for o in obs:
+        if isinstance(o, dict) and "again" in o and "py_fail" not in o and not o.get("discard"):
+            if o["again"] != o["out"]:
+                o["py_fail"] = REPEAT_DIFFERS
+    return cases, obs
 
 
 def coq_case(case, o):
@@ -276,7 +371,7 @@ def nontrivial(case, o):
     n = len(case["costs"])
     if any(len(w) > len(case["init"]) and len(w) < n for w in o["out"]):
         return [case["kind"], case["costs"], case["budget"], case["ballots"], case["sat"], case["tb"],
-                case["additive"], case["resolute"], case["init"], case["multi"]]
+                case["additive"], case["resolute"], case["init"], case["multi"], case.get("hist")]
     return None
 
 
@@ -288,7 +383,11 @@ def stats(cases, obs):
          "equal_costs": 0, "no_voters": 0, "nproj_hist": {}, "nvoters_hist": {},
          "runs_with_tied_round": 0, "runs_with_tie_left_to_name_order": 0, "irresolute_with_several_outcomes": 0,
          "nothing_selected": 0, "everything_selected": 0, "float_valued_sat": 0, "sat_profile_passed": 0,
-         "solver_reaching": 0}
+         "solver_reaching": 0,
+         "history": {"cases": 0, "voters_added_in_place": 0, "general_scheme": 0, "general_scheme_and_voters_added": 0,
+                     "outcome_differs_from_first_call": 0, "general_voters_added_outcome_changed": 0,
+                     "multiplicity_raised_in_place": 0, "reused_with_other_tb_or_init": 0, "repeated_call": 0,
+                     "mode": {}}}
 
     def inc(h, k):
         h[str(k)] = h.get(str(k), 0) + 1
@@ -321,6 +420,23 @@ def stats(cases, obs):
         d["float_valued_sat"] += c["sat"] in ("Cost_Sqrt_Sat", "Cost_Log_Sat", "Additive_Cost_Sqrt_Sat", "Additive_Cost_Log_Sat")
         d["sat_profile_passed"] += c["via"] == "profile"
         d["solver_reaching"] += bool(c.get("solver"))
+        h = c.get("hist")
+        if h:
+            H = d["history"]
+            H["cases"] += 1
+            added = len(c["ballots"]) - h["k"]
+            gen_path = (not ea) or (not c["resolute"])
+            changed = sorted(map(sorted, o.get("first", []))) != sorted(map(sorted, o["out"]))
+            H["voters_added_in_place"] += added > 0
+            H["general_scheme"] += gen_path
+            H["general_scheme_and_voters_added"] += bool(gen_path and added > 0)
+            H["outcome_differs_from_first_call"] += changed
+            H["general_voters_added_outcome_changed"] += bool(gen_path and added > 0 and changed)
+            H["multiplicity_raised_in_place"] += bool(c["multi"] and any(x in c["ballots"][:h["k"]] for x in c["ballots"][h["k"]:]))
+            H["reused_with_other_tb_or_init"] += bool(h["tb1"] != c["tb"] or h["init1"] != c["init"])
+            H["repeated_call"] += bool(h.get("repeat"))
+            if added > 0:
+                inc(H["mode"], h["mode"])
         try:
             r, t, kt = _trace(c, o)
             d["runs_with_tied_round"] += t > 0
@@ -351,7 +467,19 @@ def shrink(case):
     for j in range(len(case["ballots"])):                 # drop a voter
         c = dict(case)
         c["ballots"] = case["ballots"][:j] + case["ballots"][j + 1:]
+        if case.get("hist") and j < case["hist"]["k"]:
+            c["hist"] = dict(case["hist"], k=case["hist"]["k"] - 1)
         yield c
+    if case.get("hist"):
+        h = case["hist"]
+        if h.get("repeat"):
+            c = dict(case)
+            c["hist"] = dict(h, repeat=False)
+            yield c
+        if h["tb1"] != case["tb"] or h["init1"] != case["init"] or h["resolute1"] != case["resolute"]:
+            c = dict(case)
+            c["hist"] = dict(h, tb1=case["tb"], init1=case["init"], resolute1=case["resolute"])
+            yield c
     if case["init"]:
         c = dict(case)
         c["init"] = []
